@@ -1,16 +1,16 @@
 #!/bin/bash
 # ingest_r3.sh <ID> : confirm the two round-3 seeds of <ID> (in /tmp/seedout_r3_<ID>/{1,2}, worktree /tmp/wt_r3_<ID>)
 # and store them as the next free /verif/seeded/<ID>-<n>; prints the names. The "caught by" text is filled in later.
-ID=$1
-git -C /tmp/wt_r3_$ID checkout -q --detach $(git -C /repo rev-parse HEAD) 2>/dev/null
+ID=$1; R=${2:-r3}
+git -C /tmp/wt_${R}_$ID checkout -q --detach $(git -C /repo rev-parse HEAD) 2>/dev/null
 for k in 1 2; do
-  [ -f /tmp/seedout_r3_$ID/$k/patch.diff ] || continue
+  [ -f /tmp/seedout_${R}_$ID/$k/patch.diff ] || continue
   n=1; while [ -d /verif/seeded/$ID-$n ]; do n=$((n+1)); done
-  SEED_WT=/tmp/wt_r3_$ID SEED_OUT=/tmp/seedout_r3_$ID/$k /verif/tools/confirm_seed.sh $ID $k > /dev/null 2>&1
-  log=/tmp/seedout_r3_$ID/$k/confirm.log
+  SEED_WT=/tmp/wt_${R}_$ID SEED_OUT=/tmp/seedout_${R}_$ID/$k /verif/tools/confirm_seed.sh $ID $k > /dev/null 2>&1
+  log=/tmp/seedout_${R}_$ID/$k/confirm.log
   okw=$(grep -c 'rc_without=0' $log); f=$(grep -cE '^(FAIL|--- FAIL|panic)' $log); b=$(grep -c build-ok $log)
   if [ "$okw" = "1" ] && [ "$f" -ge 1 ] && [ "$b" = "1" ]; then
-    SEED_OUT=/tmp/seedout_r3_$ID/$k python3 /verif/tools/save_seed.py $ID $n "pending" >/dev/null && echo "$ID-$n confirmed (r3 seed $k)"
+    SEED_OUT=/tmp/seedout_${R}_$ID/$k python3 /verif/tools/save_seed.py $ID $n "pending" >/dev/null && echo "$ID-$n confirmed (r3 seed $k)"
   else
     echo "$ID r3 seed $k NOT confirmed (without=$okw fail=$f build=$b)"
   fi
